@@ -74,6 +74,27 @@ class GarbageCollector:
         """
         stats = {"data_files": 0, "manifest_files": 0, "manifest_lists": 0}
 
+        # 0. The version hint must resolve. A well-formed hint naming a metadata
+        # file that does not exist means the current version's metadata is
+        # missing; refresh() would quietly recover an OLDER version by scanning,
+        # and collecting against that deletes every file only the newer
+        # snapshots reference. Reachability cannot be trusted: abort.
+        try:
+            hinted = self.metadata_manager._read_version_hint()
+            hint_dangling = hinted is not None and not self.storage.exists(
+                f"{self.metadata_manager.metadata_path}/{hinted[1]}"
+            )
+        except Exception as e:
+            raise GarbageCollectionAborted(
+                f"Aborting GC: cannot resolve the version hint: {e}. Nothing was deleted."
+            ) from e
+        if hint_dangling:
+            raise GarbageCollectionAborted(
+                f"Aborting GC: the version hint names metadata file '{hinted[1]}' which does not "
+                f"exist. Refusing to collect against a recovered (possibly older) version. "
+                f"Nothing was deleted."
+            )
+
         # 1. Refresh metadata to get latest view
         metadata = self.metadata_manager.refresh()
         if not metadata:
